@@ -36,8 +36,13 @@ mod probe;
 mod sim;
 mod world;
 mod checks;
+mod checks_pure;
+mod pure;
 mod cli;
 
 fn main() {
+    // anyhow captures a backtrace per error when RUST_BACKTRACE is set: ~300us and a global
+    // lock per error. The monitors take their own backtraces explicitly (force_capture).
+    std::env::set_var("RUST_LIB_BACKTRACE", "0");
     std::process::exit(cli::main());
 }
